@@ -101,12 +101,14 @@ def digitsVal (ds : List Nat) : Nat := ds.foldl (fun a d => a * 10 + d) 0
 /-- sys.int_info.default_max_str_digits -/
 def maxStrDigits : Nat := 4300
 
+/-- optional sign: (negative?, rest) -/
+def signSplit : Str → Bool × Str
+  | 45 :: r => (true, r)
+  | 43 :: r => (false, r)
+  | r => (false, r)
+
 def pyInt (s : Str) : Option Int :=
-  let t := stripSpace s
-  let (neg, body) := match t with
-    | 45 :: r => (true, r)
-    | 43 :: r => (false, r)
-    | r => (false, r)
+  let (neg, body) := signSplit (stripSpace s)
   match parseDigits body with
   | none => none
   | some ds =>
